@@ -6,7 +6,7 @@
    - nx.generate_graphml as a STRUCTURED document: key table (id = allocation index, type chosen
      from the Python type of the value: str->string, int->long, bool->boolean), nodes, edges,
      data elements                                                                           (write)
-   - the journey of every text item through ElementTree / splitlines+join / lxml / file / expat
+   - the journey of every text item through ElementTree / CR replacement / lxml / file / expat
      (Model/Serial1Text.v)                                                                   (transport)
    - GraphML.networkx_to_neo4j, graph_util.py:38-66: label / labels markup                   (to_neo4j)
    - nx.read_graphml (GraphMLReader.decode_data_elements)                                    (read_graphml)
@@ -487,10 +487,8 @@ Fixpoint nodupN (l : list N) : bool :=
   match l with [] => true | x :: r => negb (memN x r) && nodupN r end.
 
 Definition val_legal (v : pval) : bool := match v with PStr s => xml_legal s | _ => true end.
-Definition val_no_cr (v : pval) : bool := match v with PStr s => no_cr s | _ => true end.
 Definition props_ok (ps : props) : bool :=
   nodupN (map fst ps) && forallb (fun kv => val_legal (snd kv)) ps.
-Definition props_no_cr (ps : props) : bool := forallb (fun kv => val_no_cr (snd kv)) ps.
 Definition class_ok (ps : props) : bool :=
   match pget P_Class ps with Some (PStr (_ :: _)) => true | _ => false end.
 (* every occurrence of Class in the graph is a string (so each scope has one Class key) *)
@@ -504,8 +502,6 @@ Definition graph_wf (g : nxg) : bool :=
   && forallb (fun e => let '(u, v, _) := e in memN u (map fst (g_nodes g)) && memN v (map fst (g_nodes g))) (g_edges g)
   && forallb (fun n => props_ok (snd n) && class_ok (snd n) && class_str (snd n)) (g_nodes g)
   && forallb (fun e => props_ok (snd e) && class_ok (snd e) && class_str (snd e)) (g_edges g).
-Definition graph_no_cr (g : nxg) : bool :=
-  forallb (fun n => props_no_cr (snd n)) (g_nodes g) && forallb (fun e => props_no_cr (snd e)) (g_edges g).
 (* additionally importable through add_graph: every node has a non-empty NodeID *)
 Definition graph_ids_ok (g : nxg) : bool :=
   forallb (fun n => truthy (pget P_NodeID (snd n))) (g_nodes g).
@@ -513,13 +509,6 @@ Definition graph_ids_ok (g : nxg) : bool :=
 Definition graph_json_ok (g : nxg) : bool :=
   forallb (fun n => negb (memN P_id (map fst (snd n)))) (g_nodes g)
   && forallb (fun e => negb (memN P_source (map fst (snd e))) && negb (memN P_target (map fst (snd e)))) (g_edges g).
-
-(* value-level end-of-line normalisation of a whole graph: what GraphML does to it *)
-Definition norm_val (v : pval) : pval := match v with PStr s => PStr (eol_norm s) | _ => v end.
-Definition norm_props (ps : props) : props := map (fun kv => (fst kv, norm_val (snd kv))) ps.
-Definition norm_graph (g : nxg) : nxg :=
-  {| g_nodes := map (fun n => (fst n, norm_props (snd n))) (g_nodes g);
-     g_edges := map (fun e => let '(u, v, ps) := e in (u, v, norm_props ps)) (g_edges g) |}.
 
 (* the store invariant the allocation of internal ids maintains *)
 Definition store_wf (s : store) : bool :=
@@ -544,10 +533,6 @@ Definition labels_ok (d : doc) : bool :=
 (* ------------------------------------------------------------------ vocabulary of the theorems *)
 Definition is_direct (ep : entry) : bool :=
   match ep with EStringDirect | EFileDirect => true | EString | EFile => false end.
-(* what a format does to the values of a graph / to a graph id on the way through: GraphML normalises
-   line ends, node-link JSON changes nothing *)
-Definition through (f : fmt) (g : nxg) : nxg := match f with GraphMLFmt => norm_graph g | JsonFmt => g end.
-Definition gid_through (f : fmt) (gid : str) : str := match f with GraphMLFmt => eol_norm gid | JsonFmt => gid end.
 (* node keys distinct and edge ends are nodes: what every nx graph satisfies *)
 Definition graph_shape (g : nxg) : bool :=
   nodupN (map fst (g_nodes g))
@@ -555,8 +540,6 @@ Definition graph_shape (g : nxg) : bool :=
 (* the precondition of a format *)
 Definition fmt_ok (f : fmt) (g : nxg) : bool :=
   match f with GraphMLFmt => graph_wf g | JsonFmt => graph_shape g && graph_json_ok g end.
-Definition fmt_no_cr (f : fmt) (g : nxg) : bool :=
-  match f with GraphMLFmt => graph_no_cr g | JsonFmt => true end.
 Definition text_graph (t : gtext) : option nxg := read_any t.       (* the graph a text denotes *)
 
 (* one load into the store (storage.add_graph / storage.add_graph_direct), result dropped *)
@@ -571,7 +554,7 @@ Definition ex_graph : nxg :=
                (10%N, PStr [32; 233; 8232; 128512; 38; 35; 49; 51; 59; 32]%N); (11%N, PStr []);
                (12%N, PInt (-7)); (13%N, PBool true)]);
         (9%N, [(P_GraphID, PStr (S"g")); (P_NodeID, PStr (S"n2")); (P_Class, PStr (S"Component"));
-               (10%N, PInt 100000000000000000000); (11%N, PStr [9; 10; 93; 93; 62]%N)])];
+               (10%N, PInt 100000000000000000000); (11%N, PStr [9; 13; 10; 93; 93; 62; 13]%N)])];
      g_edges := [(9%N, 7%N, [(P_Class, PStr (S"has")); (10%N, PStr (S"<!-- -->"))])] |}.
 Definition ex_other : nxg :=
   {| g_nodes := [(1%N, [(P_GraphID, PStr (S"other")); (P_NodeID, PStr (S"x")); (P_Class, PStr (S"Link"))])]; g_edges := [] |}.
